@@ -6,9 +6,10 @@
    the scope expressions of DEFINITIONS must be pure; the scope expression of a READ is arbitrary.
    Whenever the strict evaluation of a fragment expression returns v, the lazy "evaluation" returns (or runs out
    of fuel) a lazy value that denotes v (purely, in pure mode) in a world extending the current one with new
-   store locations only; a scoped read denotes the value of the definition strict read. *)
+   store locations only; a scoped read denotes the value of the definition strict read (on the node itself or,
+   for an inherited name, on the nearest defining ancestor at the time of the read). *)
 From TSG Require Import Model.Lazy Proofs.BaseFacts Proofs.Containers Proofs.MonadFacts Proofs.SLGraph Proofs.SLForce Proofs.SLExpr
-  Proofs.SL2Force.
+  Proofs.Scoped Proofs.SL2Force.
 
 (* ---------------- the fragment ---------------- *)
 Section Frag2.
@@ -34,12 +35,14 @@ Lemma SP2_refl s : SP2 s s. Proof. repeat split. Qed.
 Lemma SP2_trans a b c : SP2 a b -> SP2 b c -> SP2 a c. Proof. intros (A1 & A2 & A3) (B1 & B2 & B3). repeat split; congruence. Qed.
 
 (* expression-level world extension: new store locations, no new definitions *)
-Definition wext0 (w w' : world) : Prop := prefix (w_rho w) (w_rho w') /\ w_sig w' = w_sig w.
-Lemma wext0_refl w : wext0 w w. Proof. split; [apply prefix_refl|reflexivity]. Qed.
+Definition wext0 (w w' : world) : Prop :=
+  prefix (w_rho w) (w_rho w') /\ w_sig w' = w_sig w /\ w_tree w' = w_tree w /\ w_inhl w' = w_inhl w.
+Lemma wext0_refl w : wext0 w w. Proof. split; [apply prefix_refl|repeat split]. Qed.
 Lemma wext0_trans a b c : wext0 a b -> wext0 b c -> wext0 a c.
-Proof. intros [A1 A2] [B1 B2]. split; [eapply prefix_trans; eauto|congruence]. Qed.
+Proof. intros (A1 & A2 & A3 & A4) (B1 & B2 & B3 & B4). split; [eapply prefix_trans; eauto|]. repeat split; congruence. Qed.
 Lemma wext0_wext w w' : wext0 w w' -> wext w w'.
-Proof. intros [A1 A2]. split; [exact A1|rewrite A2; apply prefix_refl]. Qed.
+Proof. intros (A1 & A2 & A3 & A4). split; [exact A1|]. split; [rewrite A2; apply prefix_refl|]. split; assumption. Qed.
+Lemma wext0_sig w w' : wext0 w w' -> w_sig w' = w_sig w. Proof. intros H. apply H. Qed.
 
 Section Sim2.
   Context {rx : Type}.
@@ -49,7 +52,6 @@ Section Sim2.
   Variable okfn : ident -> Prop.
   Variable purev : ident -> bool.
   Hypothesis Hpure : forall f, okfn f -> pure_fn call f.
-  Hypothesis Hinh : f_inherited fl = [].
 
   Notation den2 := (den2 call).
   Notation Sfull := (Sfull call).
@@ -59,8 +61,10 @@ Section Sim2.
     fst x = fst y /\ snd (snd x) = snd (snd y) /\ den2 w (purev (fst x)) (fst (snd y)) (fst (snd x)).
   Definition frame_rel2 w := Forall2 (entry_rel2 w).
   Definition locals_rel2 w := Forall2 (frame_rel2 w).
-  (* every strict scoped variable is a recorded definition whose value thunk denotes its value *)
+  (* every strict scoped variable is a recorded definition whose value thunk denotes its value; the world is about
+     this tree and this file *)
   Definition scoped_rel (w : world) (sc : list (N * vframe value)) : Prop :=
+    wstatic t fl w /\
     forall n name v, scoped_lookup sc n name = Some v -> exists loc pb, In (n, name, loc) (w_sig w) /\ nth_error (w_rho w) loc = Some (v, pb).
   Definition Renv2 (w : world) (ss : sstate) (ls : lstate) : Prop :=
     Sfull w (l_store ls) /\ locals_rel2 w (s_locals ss) (l_locals ls) /\ scoped_rel w (s_scoped ss).
@@ -71,7 +75,7 @@ Section Sim2.
   Proof. intros Hp H. induction H; constructor; [eapply frame_rel2_mono; eauto|assumption]. Qed.
   Lemma scoped_rel_mono w w' sc : wext w w' -> scoped_rel w sc -> scoped_rel w' sc.
   Proof.
-    intros [Hr Hs] H n name v Hl. destruct (H n name v Hl) as (loc & pb & Hin & Hn). exists loc, pb.
+    intros (Hr & Hs & Ht & Hi) [[W1 W2] H]. split; [split; congruence|]. intros n name v Hl. destruct (H n name v Hl) as (loc & pb & Hin & Hn). exists loc, pb.
     split; [apply (prefix_In _ _ _ Hs Hin)|apply (prefix_nth _ _ _ _ Hr Hn)].
   Qed.
 
@@ -174,8 +178,8 @@ Section Sim2.
   Qed.
 
   (* the world after LazyStore::add of a value that denotes v in the mode of the variable's name *)
-  Definition wadd (w : world) (v : value) (pb : bool) : world := W (w_rho w ++ [(v, pb)]) (w_sig w).
-  Lemma wadd_ext0 w v pb : wext0 w (wadd w v pb). Proof. split; [apply prefix_app|reflexivity]. Qed.
+  Definition wadd (w : world) (v : value) (pb : bool) : world := W (w_rho w ++ [(v, pb)]) (w_sig w) (w_tree w) (w_inhl w).
+  Lemma wadd_ext0 w v pb : wext0 w (wadd w v pb). Proof. split; [apply prefix_app|repeat split]. Qed.
 
   Lemma Renv2_add w ss ls lv v pb dbg : Renv2 w ss ls -> den2 w pb lv v ->
     Renv2 (wadd w v pb) ss (set_store (l_store ls ++ [{| th_state := TUnforced lv; th_dbg := dbg |}]) ls) /\
@@ -312,9 +316,6 @@ Section Sim2.
   Notation eval' := (eval t fl glob call).
   Notation leval' := (leval t fl glob call).
 
-  Lemma inherited_false name : inherited fl name = false.
-  Proof. unfold inherited. rewrite Hinh. reflexivity. Qed.
-
   Lemma eval_sim2 : forall fuel le ll e b, fexpr2' b e -> env_rel' le ll -> forall lf, esim2 (Qd b) (eval' fuel le e) (leval' lf ll e).
   Proof.
     induction fuel as [|fuel IH]; intros le ll e b Hf Henv lf ss p v ss' p' H w ls pl HR Hb; [discriminate|].
@@ -353,11 +354,17 @@ Section Sim2.
       destruct Esv as (-> & -> & ->). clear H2.
       apply lres_bind. eapply lres_mono; [apply (IH le ll e false Hfs Henv lf _ _ _ _ _ H1 w ls pl HR Hb)|].
       intros slv ls1 pl1 (Hb1 & S1 & Hf1 & w1 & Hp1 & HR1 & Hd1). apply lres_ret.
-      unfold scoped_get_at, bind, get_state in H3. rewrite inherited_false in H3.
-      destruct (scoped_lookup (s_scoped s1) n name) as [v0|] eqn:El; [|discriminate]. apply ret_ok in H3. destruct H3 as (-> & -> & ->).
-      destruct (proj2 (proj2 HR1) n name v0 El) as (loc & pb & Hin & Hn).
+      assert (Hres : exists a, (a = n \/ (inherited fl name = true /\ In a (anc t n))) /\ scoped_lookup (s_scoped s1) a name = Some v /\ ss' = s1 /\ p' = p1).
+      { unfold scoped_get_at, bind, get_state in H3. destruct (scoped_lookup (s_scoped s1) n name) as [v0|] eqn:El.
+        - apply ret_ok in H3. destruct H3 as (-> & -> & ->). exists n. auto.
+        - destruct (inherited fl name) eqn:Ei; [|discriminate]. rewrite ancestor_lookup_nearest in H3.
+          destruct (first_some _ _) as [v0|] eqn:Ef; [|discriminate]. apply ret_ok in H3. destruct H3 as (-> & -> & ->).
+          apply first_some_In in Ef. destruct Ef as (a & Ha & Hl). exists a. split; [right; split; [reflexivity|exact Ha]|auto]. }
+      destruct Hres as (a & Ha & El & -> & ->).
+      destruct (proj2 (proj2 HR1)) as [[Wt Wi] Hsr]. destruct (Hsr a name v El) as (loc & pb & Hin & Hn).
       split; [exact Hb1|]. split; [exact S1|]. split; [exact Hf1|]. exists w1. split; [exact Hp1|]. split; [exact HR1|].
-      apply (d2_scoped call w1 false slv name n loc v0 pb eq_refl Hd1 Hin Hn).
+      apply (d2_scoped call w1 false slv name n a loc v pb eq_refl Hd1); [|exact Hin|exact Hn].
+      destruct Ha as [->|[Hi Hanc]]; [left; reflexivity|right]. unfold winh. rewrite Wi, Wt. split; assumption.
     - (* call *)
       destruct Hf as [Hok Hargs].
       apply bind_ok in H. destruct H as (u & s1 & p1 & H1 & H). apply bind_ok in H. destruct H as (ps & s2 & p2 & H2 & H3).
